@@ -258,6 +258,14 @@ impl World {
                 let classic = self.cfg.mode.is_classic();
                 let c = &mut self.links[idx(*l, n)];
                 if !c.is_timed_out(now) {
+                    // keepalives as handle_housekeeping sends them (stamps last_sent / last_keepalive_sent, may arm
+                    // an RTT probe)
+                    if c.needs_keepalive(now) {
+                        let _ = c.keepalive_packet(now);
+                    }
+                    if c.needs_rtt_measurement(now) {
+                        let _ = c.keepalive_packet(now);
+                    }
                     if !classic {
                         c.perform_window_recovery(now);
                     }
